@@ -315,7 +315,10 @@ CLAIMED = {
              "monotone in an extension order on cached objects; induction over the nested body); earlier, for transactions WITHOUT a precompile call, after any "
              "write sequence Commit stores exactly the final view of every dirtied live account (nonce, code hash, whole-unibi balance, "
              "every slot), removes self-destructed ones and touches nothing else (C04_commit_*_partial, SDBCommit.lean, any number of "
-             "accounts and slots); T1 fact: OnRunStart makes exactly three unconditional StateDB calls (cache context, journal entry, "
+             "accounts and slots); about the precompile entry itself, positively: a side-effect-free precompile call that nothing "
+             "reverts does not change what the transaction commits — the final Commit flushes a second time over objects whose origins the "
+             "first flush advanced, and that second flush writes no account and no slot anew "
+             "(C04_unreverted_query_precompile_commits_the_same_partial, SDBFlush.lean); T1 fact: OnRunStart makes exactly three unconditional StateDB calls (cache context, journal entry, "
              "flush) whatever the method, and the sdb harness enters precompiles through the real OnRunStart; the "
              "PrecompileCalled journal entry restores the multistore exactly, reverting any other entry leaves it untouched, and the "
              "StateDB balance equals the bank balance after SyncStateDBWithAccount. The reference-semantics oracle (copy-on-snapshot "
